@@ -1,0 +1,40 @@
+//go:build verif
+
+package simapp
+
+import (
+	storetypes "cosmossdk.io/store/types"
+	"github.com/cosmos/cosmos-sdk/codec"
+	nftkeeper "mods.irisnet.org/modules/nft/keeper"
+
+	tibcmttransferkeeper "github.com/bianjieai/tibc-go/modules/tibc/apps/mt_transfer/keeper"
+	tibcmttypes "github.com/bianjieai/tibc-go/modules/tibc/apps/mt_transfer/types"
+	tibcnfttransferkeeper "github.com/bianjieai/tibc-go/modules/tibc/apps/nft_transfer/keeper"
+	tibcnfttypes "github.com/bianjieai/tibc-go/modules/tibc/apps/nft_transfer/types"
+)
+
+// VerifNftKeeperWrap / VerifMtKeeperWrap let a simulation harness (build tag
+// verif only) decorate the token keepers handed to the transfer applications,
+// e.g. with cooperative fault points.  Nil (the default) leaves the wiring of
+// NewSimApp untouched.
+var (
+	VerifNftKeeperWrap func(tibcnfttypes.NftKeeper) tibcnfttypes.NftKeeper
+	VerifMtKeeperWrap  func(tibcmttypes.MtKeeper) tibcmttypes.MtKeeper
+)
+
+func (app *SimApp) verifWrapTransferKeepers(cdc codec.Codec, keys map[string]*storetypes.KVStoreKey) {
+	if VerifNftKeeperWrap != nil {
+		app.NftTransferKeeper = tibcnfttransferkeeper.NewKeeper(
+			cdc, keys[tibcnfttypes.StoreKey],
+			app.AccountKeeper, VerifNftKeeperWrap(nftkeeper.NewLegacyKeeper(app.NftKeeper)),
+			app.TIBCKeeper.PacketKeeper, app.TIBCKeeper.ClientKeeper,
+		)
+	}
+	if VerifMtKeeperWrap != nil {
+		app.MtTransferKeeper = tibcmttransferkeeper.NewKeeper(
+			cdc, keys[tibcnfttypes.StoreKey],
+			app.AccountKeeper, VerifMtKeeperWrap(app.MtKeeper),
+			app.TIBCKeeper.PacketKeeper, app.TIBCKeeper.ClientKeeper,
+		)
+	}
+}
